@@ -13,6 +13,10 @@ for d in sorted(glob.glob('/verif/seeded/*')):
     if len(summ) > 170:
         summ = summ[:167] + '...'
     files = ', '.join(os.path.basename(f) for f in m.get('files_changed', []))[:60]
+    if m.get('obsolete'):
+        rows.append('| %s | %s | %s | %s | %s |' % (os.path.basename(d), files, summ,
+                                                   'no longer a breaking change since ' + m['obsolete']['since'], '-'))
+        continue
     rows.append('| %s | %s | %s | %s | %s |' % (os.path.basename(d), files, summ, ', '.join(caught) or '-',
                                                ', '.join(missed) or '-'))
 print('| seeded change | file | what it does | caught by | run but not caught by |')
